@@ -46,7 +46,13 @@ def main():
         fh.write("\n")
     st = git("status", "--porcelain").stdout
     conflicts = [l for l in st.splitlines() if l[:2] in ("UU", "AA", "DU", "UD")]
-    others = [l for l in conflicts if not l.endswith("known_findings.json")]
+    # evidence files are rewritten by every run: take the branch's version, the coordinator re-runs the check
+    for l in conflicts:
+        path = l[3:].strip()
+        if path.startswith("evidence/"):
+            git("checkout", "--theirs", path, check=False)
+            git("add", path, check=False)
+    others = [l for l in conflicts if not l.endswith("known_findings.json") and not l[3:].strip().startswith("evidence/")]
     if others:
         print("UNRESOLVED CONFLICTS:\n" + "\n".join(others))
         sys.exit(1)
